@@ -96,6 +96,12 @@ def check_case(case, opts):
         else:
             R = os.path.join(work, "unpacked")
             Rarg = "unpacked"
+        # the listing must be printable for every valid image, whether or not the files can be unpacked on this host
+        r0 = vcommon.run([rd, "-d", img1], cwd=work, timeout=60)
+        if r0.sanitizer() or r0.timeout:
+            raise Violation("rdsquashfs -d: %s" % (r0.sanitizer() or "timeout"), r0.err.decode(errors="replace")[-1000:], sig="sanitizer")
+        if r0.rc != 0:
+            raise Violation("rdsquashfs --describe failed on a valid image: %s" % r0.err[-300:].decode(errors="replace"), None, sig="describe-failed")
         # unpack the files
         ru = vcommon.run([rd, "-u", "/", "-p", Rarg if Rarg != rn or not rn.startswith("-") else "./" + rn, "-q", img1], cwd=work, timeout=60)
         if ru.sanitizer() or ru.timeout:
